@@ -144,6 +144,11 @@ def _usable(deck):
         return False
     if getattr(deck, 'extra_data', None):
         return False
+    if any(leaf[1] >= 1000 for c in deck.cells
+           for leaf in M.expr_leaves(c.geom)):
+        # 1000*c+s only works for cell and surface numbers below 1000, which
+        # the renumbering of the parts does not promise
+        return False
     return all(c.imp is not None for c in deck.cells)
 
 
